@@ -70,6 +70,18 @@ P = {
   "Registries of 2 packages x 2 versions (5 exports shapes, per-file import lists over relative / jsr: / npm: / https-into-registry / self / unknown-export forms) and importing programs of <= 3 imports are built with the real builder inside the deviation bound; redirects, mappings, exports used, package dependency edges and unknown-export errors are compared with a reference recomputed from the fixture; package URL <-> name@version is round-tripped for every file and probed with near-miss URLs.",
   "Every requirement of the alphabet matches exactly one published version (selection order is C06's subject). Default JsrUrlProvider only.",
   "DESIGN.md §4 C07", TECH + "; deviation-bounded enumeration of registries x importing programs against reference bookkeeping"),
+ "C09": (True,
+  "Every generated package inside the deviation bound (3 declaration slots x 51 templates x 18 reference forms, 6 helper-module variants, 3 entrypoint sets) and every package of the fast-check spec corpus goes through the real fast-check transform; each emitted module is re-parsed with scope analysis and checked for dangling references, imports of names the emitted counterpart does not export, unresolvable relative specifiers and source-map well-formedness / identifier fidelity.",
+  "Emitted text is re-parsed with the same swc parser the subject uses (common-mode risk); export / signature / unresolved-identifier extractors and the VLQ source-map decoder are the harness's own. Packages that get diagnostics instead of output are only counted.",
+  "DESIGN.md §4 C09-C11", TECH + "; deviation-bounded enumeration of generated packages + full corpus, closure oracle on the re-parsed output"),
+ "C10": (True,
+  "Same package space and corpus as C09; every emitted module is walked structurally: bodies erased to nothing or the placeholder return, constructors at most a placeholder super call, only declarations at statement level, initialisers inside the documented leavable grammar, explicit parameter and return types, TS-private members reduced, no ES-private members / decorators / parameter properties.",
+  "Emitted text is re-parsed with the same swc parser the subject uses (common-mode risk); export / signature / unresolved-identifier extractors and the VLQ source-map decoder are the harness's own. Packages that get diagnostics instead of output are only counted. The leavable-expression grammar is the implementation's documented one (maybe_transform_expr_if_leavable).",
+  "DESIGN.md §4 C09-C11", TECH + "; deviation-bounded enumeration of generated packages + full corpus, structural erasure oracle"),
+ "C11": (True,
+  "Same package space and corpus as C09; relational oracle between original and emitted text: resolved export-name sets (equal for entrypoints, subset otherwise), declaration kinds, every written annotation / type-parameter list / heritage clause / interface-type-enum text carried over, unused private declarations absent.",
+  "Emitted text is re-parsed with the same swc parser the subject uses (common-mode risk); export / signature / unresolved-identifier extractors and the VLQ source-map decoder are the harness's own. Packages that get diagnostics instead of output are only counted. Overload implementation signatures are not public API and are not compared.",
+  "DESIGN.md §4 C09-C11", TECH + "; deviation-bounded enumeration of generated packages + full corpus, relational API-preservation oracle"),
 }
 
 ALL = ["C%02d" % i for i in range(1, 21)]
